@@ -11,13 +11,13 @@ def generate(prop, seed, tier='quick'):
     rng = _rng(seed)
     if prop in ('C03', 'C04', 'C05', 'C10'):
         from engines import pipeline_gen
-        return pipeline_gen.GENERATORS[prop](rng, seed)
+        return pipeline_gen.GENERATORS[prop](rng, seed, tier)
     if prop == 'C06':
         from engines import pipeline_gen
         if seed % 4 == 0:
             from engines import framing
             return framing.generate(rng, seed, tier)
-        return pipeline_gen.gen_c06(rng, seed)
+        return pipeline_gen.gen_c06(rng, seed, tier)
     mod = _module_for(prop)
     return mod.generate(rng, seed, tier)
 
